@@ -1,4 +1,7 @@
-/* C01: bidib_flush_impl - framing, staging-buffer safety and exact length accounting, for every buffer content and
+/* (with -DVP_BYTES: additionally byte-exact - a watched payload byte appears at its stream position, escaped iff it is
+ *  0xFE/0xFD, and the packet ends with the CRC of the payload (relative to bidib_crc_array, whose content is proved in
+ *  C01.crc_table), escaped iff it is 0xFE/0xFD, followed by the delimiter.)
+ * C01: bidib_flush_impl - framing, staging-buffer safety and exact length accounting, for every buffer content and
  * fill level 0..256 (loop contract, no unwinding bound).
  *   - every chunk handed to the write callback is a non-empty prefix of the staging buffer (src == buffer_aux, 0 < n <= 312)
  *   - the staging buffer is never overrun (CBMC bounds checks + invariant aux_index <= 310 at the loop head)
@@ -13,6 +16,9 @@ int vp_clock_gettime(struct timespec *ts);
 #define clock_gettime(id, ts) vp_clock_gettime(ts)
 #include "src/transmission/bidib_transmission_send.c"
 #undef clock_gettime
+#ifdef VP_MAX_N
+#include "src/transmission/bidib_transmission_crc.c"   /* bounded byte-exact variant: the real CRC table */
+#endif
 
 /* time stub: arbitrary but sane values (tv_sec in [0, 2^40), tv_nsec in [0, 1e9)) - assumption listed in the evidence */
 int vp_clock_gettime(struct timespec *ts) {
@@ -26,6 +32,11 @@ unsigned vp_esc[PACKET_BUFFER_SIZE + 1];
 size_t g_total;          /* bytes handed to the write callback so far */
 unsigned g_chunks;
 uint8_t g_first, g_last;
+#ifdef VP_BYTES
+uint8_t vp_crc[PACKET_BUFFER_SIZE + 1];    /* prophecy: CRC of buffer[0..k) */
+size_t g_w, g_pos; uint8_t g_exp0, g_exp1; _Bool g_needesc; unsigned g_seen;
+uint8_t g_tail[3]; int g_tail_n;
+#endif
 
 void vp_write(uint8_t *p, int32_t n) {
 	__CPROVER_assert(n > 0 && n <= PACKET_BUFFER_AUX_SIZE, "C01.flush.chunk_len_in_(0,312]");
@@ -34,6 +45,17 @@ void vp_write(uint8_t *p, int32_t n) {
 		if (g_total == 0) g_first = p[0];
 		g_last = p[n - 1];
 	}
+#ifdef VP_BYTES
+	if (n > 0 && n <= PACKET_BUFFER_AUX_SIZE && p == (uint8_t *)buffer_aux) {
+		if (g_pos >= g_total && g_pos < g_total + (size_t)n) {
+			__CPROVER_assert(p[g_pos - g_total] == g_exp0, "C01.flush.payload_byte_at_its_stream_position_escape_marker_first_if_needed");
+			if (g_needesc) __CPROVER_assert(g_pos + 1 < g_total + (size_t)n && p[g_pos - g_total + 1] == g_exp1, "C01.flush.escaped_byte_follows_its_marker_in_the_same_chunk");
+			g_seen++;
+		}
+		g_tail_n = n >= 3 ? 3 : n;
+		g_tail[2] = p[n - 1]; if (n >= 2) g_tail[1] = p[n - 2]; if (n >= 3) g_tail[0] = p[n - 3];
+	}
+#endif
 	g_total += (size_t)n;
 	g_chunks++;
 }
@@ -41,12 +63,27 @@ void vp_write(uint8_t *p, int32_t n) {
 void vp_harness(void) {
 	size_t in_n; VP_IN(size_t, in_n);
 	__CPROVER_assume(in_n <= PACKET_BUFFER_SIZE);
+#ifdef VP_MAX_N
+	__CPROVER_assume(in_n <= VP_MAX_N);
+#endif
 	uint8_t in_buffer[PACKET_BUFFER_SIZE]; VP_IN_BYTES(in_buffer, PACKET_BUFFER_SIZE);
 	vp_esc[0] = 0;
+#ifdef VP_BYTES
+	vp_crc[0] = 0;
+#endif
 	for (unsigned k = 0; k < PACKET_BUFFER_SIZE; k++) {
 		buffer[k] = in_buffer[k];
+#ifdef VP_BYTES
+		vp_crc[k + 1] = bidib_crc_array[in_buffer[k] ^ vp_crc[k]];
+#endif
 		vp_esc[k + 1] = vp_esc[k] + ((in_buffer[k] == 0xFE || in_buffer[k] == 0xFD) ? 1u : 0u);
 	}
+#ifdef VP_BYTES
+	VP_IN(size_t, g_w); __CPROVER_assume(g_w < PACKET_BUFFER_SIZE);
+	g_pos = 1 + g_w + vp_esc[g_w]; g_needesc = (in_buffer[g_w] == 0xFE || in_buffer[g_w] == 0xFD);
+	g_exp0 = g_needesc ? 0xFD : in_buffer[g_w]; g_exp1 = in_buffer[g_w] ^ 0x20; g_seen = 0; g_tail_n = 0;
+	if (g_w >= in_n) g_pos = (size_t)-1;      /* nothing to watch */
+#endif
 	buffer_index = in_n;
 	write_bytes = vp_write;
 	g_total = 0; g_chunks = 0; g_first = 0; g_last = 0;
@@ -54,7 +91,11 @@ void vp_harness(void) {
 	bidib_flush_impl();
 
 	VP_COVER(in_n == 0);
+#ifndef VP_MAX_N
 	VP_COVER(in_n == 256 && g_chunks == 2);
+#else
+	VP_COVER(in_n == VP_MAX_N);
+#endif
 	VP_COVER(g_chunks == 1 && in_n > 0);
 	__CPROVER_assert(buffer_index == 0, "C01.flush.buffer_emptied");
 	if (in_n == 0) {
@@ -65,6 +106,19 @@ void vp_harness(void) {
 		__CPROVER_assert(g_first == 0xFE, "C01.flush.starts_with_delimiter");
 		__CPROVER_assert(g_last == 0xFE, "C01.flush.ends_with_delimiter");
 		__CPROVER_assert(g_chunks >= 1 && g_chunks <= 3, "C01.flush.chunk_count");
+#ifdef VP_BYTES
+		__CPROVER_assert(g_seen == (g_w < in_n ? 1u : 0u), "C01.flush.every_payload_byte_emitted_exactly_once");
+		uint8_t c = vp_crc[in_n];
+		VP_COVER(c == 0xFD);
+#ifndef VP_MAX_N
+		VP_COVER(g_needesc && g_w < in_n && g_chunks == 2);
+#else
+		VP_COVER(g_needesc && g_w < in_n); VP_COVER(c == 0xFE);
+#endif
+		__CPROVER_assert(g_tail_n >= 2 && g_tail[2] == 0xFE, "C01.flush.last_chunk_ends_with_crc_and_delimiter");
+		if (c == 0xFE || c == 0xFD) __CPROVER_assert(g_tail_n == 3 && g_tail[0] == 0xFD && g_tail[1] == (uint8_t)(c ^ 0x20), "C01.flush.crc_equal_to_delimiter_or_escape_byte_is_escaped");
+		else __CPROVER_assert(g_tail[1] == c, "C01.flush.crc_of_the_payload_precedes_the_closing_delimiter");
+#endif
 	}
 }
 #ifdef VP_REPLAY
